@@ -46,7 +46,7 @@ def gen(seed, tier):
             else:
                 lines = [g.any_frame(r.choice(pool)) for _ in range(r.randint(0, 3))] + [sentinel(g)]
                 segs.append(seg(0, lines))
-        cases.append(("C18-%d" % i, "T", opts_str({"i": "x", "u": -1, "o": "x"}), ";".join(segs)))
+        cases.append(("C18-%d" % i, "T", opts_str({"i": "x", "u": -1, "o": "x", "l": i % 3}), ";".join(segs)))
     # a connection that has been up for longer than the retry pause when it is reset in the middle of a line
     pool = r.sample([x for x in ICAOS if x != SENT], 3)
     lines = [g.any_frame(r.choice(pool)) for _ in range(3)]
@@ -67,6 +67,9 @@ def gen(seed, tier):
             else:
                 segs.append(seg(0, [g.any_frame(r.choice(pool)), sentinel(g)]))
         cases.append(("C18-D%d" % i, "T", opts_str({"i": "x", "u": -1, "o": "x", "D": 1}), ";".join(segs)))
+    # thousands of connections accepted and dropped at once (the loop must be a loop, not recursion), then a healthy one
+    ncyc = 3000
+    cases.append(("C18-cyc", "T", opts_str({"i": "x", "u": -1, "o": "x"}), ";".join([seg(1, [g.any_frame(r.choice(ICAOS[:3]))]), blob(11, str(ncyc).encode()), seg(0, [sentinel(g)])])))
     # a long outage (thorough tier: 162 s of refused attempts): the aircraft learned before it, position and all, are shown
     # again at the first refresh after the reconnection (display on, all column groups, no expiry within the session)
     if tier != "quick":
@@ -138,6 +141,9 @@ def oracle(parts, outcome, obs):
         fails.append("the decoder terminated during the session")
     events = [int(s.split(":", 1)[0]) for s in parts[3].split(";") if s]
     want_conns = sum(1 for e in events if e not in (3, 8))
+    for s in parts[3].split(";"):
+        if s.startswith("11:!"):
+            want_conns += int(bytes.fromhex(s[4:]).decode()) - 1
     events = [0 if e == 6 else (2 if e == 7 else e) for e in events]
     if int(d["conns"]) != want_conns:
         fails.append("connections accepted %s, expected %d" % (d["conns"], want_conns))
